@@ -35,6 +35,7 @@ THEOREMS = [
     "Verif.C06.scan_slice_keeps_fast_step",
     "Verif.C06.scan_pixel_time_of_fast_step",
     "Verif.C06.scan_pixel_counts",
+    "Verif.C06.down_with_entry",
 ]
 RULE = (
     "kymographs and scans built from generated info waves (P<=5 pixels, <=6 lines/frames, k<=3 samples per pixel, "
@@ -144,6 +145,8 @@ def kop_token(op):
         return "flip"
     if k == "down":
         return f"down:{op[1]}:{op[2]}"
+    if k == "downr":
+        return f"downr:{op[1]}:{op[2]}:{op[3]}"
     if k == "kbp":
         return f"kbp:{enc_frac(op[1])}"
     raise ValueError(op)
@@ -203,6 +206,8 @@ def apply_kop(k, op):
         return k.flip()
     if n == "down":
         return k.downsampled_by(time_factor=op[1], position_factor=op[2])
+    if n == "downr":
+        return k.downsampled_by(time_factor=op[2], position_factor=op[3], reduce={"max": np.max, "min": np.min, "ptp": np.ptp}[op[1]])
     if n == "kbp":
         return k.calibrate_to_kbp(float(Fraction(op[1])))
     raise ValueError(op)
@@ -392,10 +397,15 @@ def oracle(case, ia):
             elif n == "flip":
                 ref = ref[::-1, :]  # timestamps are not asserted after a flip (O1); the code leaves them unflipped
                 processed = True
-            elif n == "down":
-                tf, pf = op[1], op[2]
+            elif n in ("down", "downr"):
+                tf, pf = (op[1], op[2]) if n == "down" else (op[2], op[3])
                 P2, L2 = ref.shape[0] // pf, ref.shape[1] // tf
-                ref = ref[: P2 * pf, : L2 * tf].reshape(P2, pf, L2, tf).sum(axis=(1, 3))
+                blocks = ref[: P2 * pf, : L2 * tf].reshape(P2, pf, L2, tf)
+                if n == "down":
+                    ref = blocks.sum(axis=(1, 3))
+                else:  # the user's reducer over each whole two-dimensional block
+                    flat = blocks.transpose(0, 2, 1, 3).reshape(P2, L2, pf * tf)
+                    ref = {"max": lambda b: b.max(axis=2), "min": lambda b: b.min(axis=2), "ptp": lambda b: b.max(axis=2) - b.min(axis=2)}[op[1]](flat)
                 if tf == 1 and tf_total == 1:
                     tmn = tmn[: P2 * pf, :].reshape(P2, pf, L2).min(axis=1)
                     tmx = tmx[: P2 * pf, :].reshape(P2, pf, L2).max(axis=1)
@@ -583,6 +593,10 @@ def kymo_alphabet(case, rng=None, full=True):
     ops_.append(["flip"])
     for tf, pf in itertools.product((1, 2, 3), (1, 2, 3)):
         ops_.append(["down", tf, pf])
+    # other reducers; np.ptp does not factor into a reduction over position followed by one over time
+    for red, (tf, pf) in itertools.product(("ptp", "max", "min"), ((2, 2), (2, 3), (3, 2), (1, 2), (2, 1))):
+        if red == "ptp" or (tf, pf) == (2, 2):
+            ops_.append(["downr", red, tf, pf])
     ops_.append(["kbp", str(Fraction(P) / 4)])
     ops_.append(["kbp", str(Fraction(P) * 2)])
     return ops_
